@@ -316,7 +316,21 @@ func perturbNear(t *rapid.T, doc val.V, h ref.Hunk) (val.V, string, bool) {
 			}
 		}
 	}
-	switch gen.Int(t, "nearOp", 0, 11) {
+	switch gen.Int(t, "nearOp", 0, 13) {
+	case 12:
+		// the element two before the edit: outside one-line context, the
+		// outer line of two-line context
+		how = "change-before-2"
+		if !set(i - 2) {
+			how = "prepend"
+			l = append([]val.V{freshScalar(t)}, l...)
+		}
+	case 13:
+		how = "change-after-2"
+		if !set(end + 1) {
+			how = "append"
+			l = append(l, freshScalar(t))
+		}
 	case 10, 11:
 		// the array replaced by an object (or null) that mimics it
 		how = "array-becomes-object"
